@@ -18,6 +18,7 @@ SI = "miasm/analysis/simplifier.py"
 EX = "miasm/expression/expression.py"
 LEVEL_TEXT = ("Keep-set rules for DeadRemoval (what may be deleted, what must be in `useful`), immutability set and "
               "ordering of the SSA pipeline. A necessary condition only: equality of behaviour is not decided.")
+LEVEL_TEXT += ' Also: a Phi source is dropped only when all the predecessor edges it flows through are deleted.'
 ASSUMPTIONS = ["CPython ast", "side effects of IR are memory writes, IRDst, exception flags and call_func_* operators"]
 
 
